@@ -468,6 +468,7 @@ def main(run):
                        "register totals and balance sums are the converted postings; all three lookups and none; each distinct-key file is run a second "
                        "time with its lines permuted; separate streams: self pair (F12), duplicate keys (statistics only), configuration errors. "
                        "non-trivial = at least one posting converted; distinct = distinct converted outputs")
+    run.violations.sort(key=lambda v: not v[2])      # violations with a concrete failing input first
     run.notes.update({"stages": stages, "verdict_classes": verdicts, "tags": tagc, "lookup_types": lts,
                       "postings_observed": n_posts, "postings_converted": n_conv, "permuted_file_runs": n_perm})
     return run.finish(info)
